@@ -11,6 +11,8 @@ Only an Expression or None may come back.
 
 from __future__ import annotations
 
+from functools import lru_cache
+
 import itertools as itt
 
 from ..graphs import G, ancestors_inc, descendants_inc, disjoint_pairs, district_of, enum_L, enum_O, identifiable_tp
@@ -34,6 +36,7 @@ def domain_specs(nodes):
     return out
 
 
+@lru_cache(maxsize=None)
 def _cases(tier):
     """List of (graph, K) work items."""
     items = []
